@@ -912,4 +912,7 @@ def run(S):
     rule_layer(S)
     rule_lroot(S)
     rule_back(S)
+    from checks.C01 import snap_rule
+    S.rule('R-SNAP', 'iscan_findnext: every rank / count lookup uses the local permutation snapshot (shared with C04)')
+    snap_rule(S, S.facts().one(Y + 'iscan_findnext'), 'R-SNAP')
     rule_eq(S)
